@@ -19,7 +19,8 @@ EXPLANATION = (
     'consumer: an arm of the shunting-yard loop, a node class, a value conversion; (C02.4) the three '
     'error-literal tables agree; (C02.5) the four state blocks of the tokenizer come first and leave the '
     'iteration, string content is copied verbatim except doubled quotes; (C02.7) leading "=", blanks and '
-    '"@" are removed where the statement says they do not matter.')
+    '"@" are removed where the statement says they do not matter.'
+    ' (C02.10) witness formulas interpreted through FormulaParser.tokenize, the tokenizer and OperandNode.eval as written: string literals keep blanks, tabs, line breaks and (un-doubled) quotes, quoted sheet names keep their characters.')
 NOT_DECIDED = ('equivalence of the hand-written state machine and the shunting-yard argument counting '
                'with the formula grammar for all texts (needs execution against a reference parser)')
 TRUSTED = ['token kinds of the grammar transcribed from the property statement']
